@@ -30,14 +30,23 @@ PROPS = {
 }
 
 
+# additional stages of the thorough tier
+THOROUGH = {
+    "C01": ["mc_core", "mc_three", "mc_two_arrays"], "C02": ["mc_core"], "C03": ["mc_crash"], "C04": ["mc_core", "mc_two_arrays"],
+    "C05": ["mc_core", "selftest_binding"], "C06": ["mc_core", "mc_two_arrays"], "C07": ["mc_resolve"], "C08": ["mc_resolve", "mc_travel"],
+    "C09": ["mc_crash"], "C10": ["mc_damage"], "C11": ["mc_crash"], "C12": ["mc_resolve", "specmutants"], "C13": ["mc_core", "mc_three"],
+    "C14": ["mc_travel"], "C15": ["mc_resolve"], "C16": [], "C17": [], "C18": [], "C19": [],
+}
+
+
 def cache_dir(tier, seed):
     key = vlib.source_key("%s:%s" % (tier, seed))
     d = os.path.join(OUT, "cache", key)
     os.makedirs(d, exist_ok=True)
     # keep the cache small: drop other keys (a changed source tree never reuses them)
-    for other in glob.glob(os.path.join(OUT, "cache", "*")):
-        if other != d and time.time() - os.path.getmtime(other) > 6 * 3600:
-            shutil.rmtree(other, ignore_errors=True)
+    others = sorted((o for o in glob.glob(os.path.join(OUT, "cache", "*")) if o != d), key=os.path.getmtime, reverse=True)
+    for other in others[3:]:
+        shutil.rmtree(other, ignore_errors=True)
     return d
 
 
@@ -446,6 +455,10 @@ def st_mc_merge(tier, seed, d):
 STAGES = {"hist_random": st_hist_random, "fn_merge": fn_stage("merge"), "fn_diff": fn_stage("diff"),
           "fn_revision": fn_stage("revision"), "fn_revtree": fn_stage("revtree"), "mc_merge": st_mc_merge,
           "mc_quick": mc_stage("MC_quick.cfg", 300, 6000, 24, 400),
+          "mc_core": mc_stage("MC_core.cfg", 300, 4000, 0, 100, workers=14), "mc_crash": mc_stage("MC_crash.cfg", 300, 4000, 0, 100, workers=14),
+          "mc_resolve": mc_stage("MC_resolve.cfg", 300, 4000, 0, 200, workers=14), "mc_travel": mc_stage("MC_travel.cfg", 300, 4000, 0, 200, workers=14),
+          "mc_damage": mc_stage("MC_damage.cfg", 300, 4000, 0, 0, workers=14), "mc_two_arrays": mc_stage("MC_two_arrays.cfg", 300, 3000, 0, 100, workers=14),
+          "mc_three": mc_stage("MC_three.cfg", 300, 3000, 0, 100, workers=14),
           "selftest_binding": st_selftest_binding, "specmutants": st_specmutants,
           "kv": st_kv, "multi_config": multi_stage("config"), "multi_backend": multi_stage("backend")}
 
@@ -559,6 +572,8 @@ def decide(pid, tier, seed, t0):
     if pid not in PROPS:
         raise vlib.ToolError("unknown or unclaimed property " + pid)
     stage_names, method = PROPS[pid]
+    if tier == "thorough":
+        stage_names = list(stage_names) + THOROUGH.get(pid, [])
     results = {n: stage(n, tier, seed) for n in stage_names}
     known = load_known()
     viols, counts = [], {}
@@ -617,6 +632,8 @@ def write_evidence(pid, tier, seed, t0, method, counts, events, runs, states, sa
             "states_note": "states = distinct states of the TLC model-checking runs listed in model_runs plus one TLC state per "
                            "validated trace event; transitions = states generated by those runs plus validated events",
             "known_findings_hit": nknown,
+            "binding_selftest": [x for r in results.values() for x in r.get("selftest", [])],
+            "spec_mutants": [x for r in results.values() for x in r.get("specmutants", [])],
             "traces_validated_against_impl": runs,
             "samples": samples[:5] or [{"note": "no sample"}],
             "evaluations": events,
